@@ -41,7 +41,7 @@ type logRec struct {
 	Faulted   bool     `json:"faulted"`
 	Ordinal   int      `json:"ordinal"`
 	Pid       int      `json:"pid"`
-	Phase     string   `json:"phase"` // "start" when the invocation begins, "end" when it is over
+	Phase     string   `json:"phase"`              // "start" when the invocation begins, "end" when it is over
 	OutText   string   `json:"out_text,omitempty"` // what `rev-parse` answered (small)
 }
 
